@@ -126,3 +126,24 @@ Proof.
   - discriminate.
   - destruct rset; discriminate.
 Qed.
+
+(* ---- Conn.offset ---- *)
+(* whatever an operation returns — in particular a Kafka error — the Conn's offset afterwards is
+   the offset it was positioned at: unchanged for every operation but fetch, and for fetch
+   (ReadBatch + Close without reading) the offset the Conn was seeked to before the call *)
+Theorem offset_after_call st o s st' r s' :
+  conn_do st o s = (st', r, s') -> offset st' = op_offset st o.
+Proof.
+  unfold conn_do. destruct (closed st); [intros H; inversion H; reflexivity|].
+  destruct (wait_response _ s) as [[[size|e] s1] cl]; [|intros H; inversion H; reflexivity].
+  destruct (op_read _ _ _ size s1) as [[[x|e] sz1] s2]; intros H; inversion H; reflexivity.
+Qed.
+Corollary kafka_error_keeps_offset st o s st' c s' :
+  conn_do st o s = (st', RErr (EKafka c), s') ->
+  offset st' = op_offset st o /\ (op_api o <> AFetch -> (forall acts, op_api o <> AFetchRead acts) -> offset st' = offset st).
+Proof.
+  intros H. pose proof (offset_after_call _ _ _ _ _ _ H) as E. split; [exact E|].
+  intros H1 H2. rewrite E. unfold op_offset. destruct (op_api o); try reflexivity.
+  - contradiction.
+  - exfalso. eapply H2. reflexivity.
+Qed.
